@@ -529,9 +529,17 @@ def king(ctx):
         if v[0] != 'single':
             continue
         conds = []
+
+        def rw(cn):
+            # a private predicate such as `fn castle_path_safe(board, middle, dest) -> bool`: its body, with the
+            # king-step test kept as a call
+            if cn[0] == 'call' and cn[1] != LKM and cn[1] in ctx.facts().bodies and not (ctx.facts().fns.get(cn[1]) or {}).get('pub'):
+                return inline_private(ctx, cn, keep=(LKM,))
+            return None
         for conj in dnf(s, c['blk']):
-            lits = [(bb(g['cond'], an), g['truth']) for g in conj if g['cond'] is not None and bb(g['cond'], an)[0] != 'discr']
-            conds.append(lits)
+            for alt in expand_conj(conj, rewrite=rw):
+                lits = [(bb(g['cond'], an), g['truth']) for g in alt if g['cond'] is not None and bb(g['cond'], an)[0] != 'discr']
+                conds.append(lits)
         for side, has, sqs, step in (('kingside', 'has_kingside', 'kingside_squares', 'uright'), ('queenside', 'has_queenside', 'queenside_squares', 'uleft')):
             mid = call('square::Square::' + step, ksq)
             end = call('square::Square::' + step, mid)
